@@ -48,6 +48,9 @@ CHECKS = {
  "C12": dict(cat="model_checking", ref="§3 C12",
    text="Victim in every SMP state in both roles (v2, v3); deviations delivered correctly authenticated through a clone of its peer: every MPI field of the genuine next message replaced by 14 boundary values, miscounts, bad length prefixes, truncations, question variants, duplicates, aborts before/after, well-formed messages of another run out of sequence; a malicious prover who recomputes the proofs over degenerate group elements (unit elements with forged SMP3/SMP4, Pb=1 Qb=0, g2a=0, g2a=p-1); explicit-state exploration of all sequences of foreign SMP messages and user calls (start, answer, abort, End). Oracle: no panic, never success, and afterwards an abort followed by a fresh honest run with equal secrets (initiated by either side) succeeds on both sides.",
    tech="exhaustive enumeration of authenticated deviant SMP payloads per state + explicit-state exploration of message/call sequences, all on the real state machine"),
+ "C09": dict(cat="model_checking", ref="§3 C09",
+   text="All interleavings of Send/deliver of two parties (per-side budgets incl. one-directional streams, optional refresh while encrypted). The monitor recomputes every receiving MAC key each party can form. Safety on every emitted data message: each disclosed value is a receiving MAC key of the discloser and, on a clone taken right after the send, a forged message for that key pair with a fresh counter and a correct MAC under the disclosed key is rejected. Liveness at every maximal path after a flush message each way: every key that authenticated an accepted message and whose pair is retired has been disclosed.",
+   tech="explicit-state model checking of the implementation with behavioural forged-message probes on cloned states"),
 }
 NA_REASON = "check not built yet (work in progress; see DESIGN.md §3 for the planned bounded exploration)"
 def main():
